@@ -88,7 +88,8 @@ def not_types(*labels):
 # ---------------------------------------------------------------- contracts
 class Case:
     def __init__(self, name, when=None, returns=None, raises=None, post=None, effects=None,
-                 may_raise=None, havoc=None, need_cover=True, garbles=False):
+                 may_raise=None, havoc=None, need_cover=True, garbles=False, fresh_result=False):
+        self.fresh_result = fresh_result   # mutable containers in the result must have been allocated by this call (C16)
         self.garbles = garbles      # taking this clause at a call site means "the input was not grammar-valid":
         #                             from then on callees are summarised by their weakest clause (over-approximation)
         self.need_cover = need_cover  # must some path reach this case (vacuity guard)?
@@ -124,7 +125,10 @@ class Ctx:
 class Contract:
     def __init__(self, target, params, cases, requires=None, reads=(), modifies=(), inline=(),
                  loops=None, selector=None, name=None, pure=True, setup=None, trusted=False, doc='',
-                 bounded=True, complete=False, view=None, views=None, check_cases=None, fallback=None):
+                 bounded=True, complete=False, view=None, views=None, check_cases=None, fallback=None,
+                 bounded_only=False):
+        self.bounded_only = bounded_only  # outside the executor's subset by nature: only the bounded run-time stand-in
+        #                                   (labelled bounded in the evidence, never an obligation, never 'discharged')
         self.fallback = fallback        # weakest clause (subsumes all others): used once the path is 'garbled'
         self.view = view                # name of this view of the function (None = the default one callers see)
         self.views = views or {}        # while verifying this contract: callee qualified name -> view to use
@@ -197,7 +201,10 @@ class Contract:
                 st.assume(B(p) if not isinstance(p, bool) else p)
             return res
         if chosen.returns is not None:
-            return chosen.returns(ctx)
+            res = chosen.returns(ctx)
+            if chosen.fresh_result:
+                mark_fresh(st, res)       # promised (and verified) by the callee's own contract
+            return res
         if chosen.post is not None and chosen.effects is None:
             raise EngineError('relational post used at a call site without a result maker: %s' % self.name)
         return None
@@ -493,7 +500,7 @@ class Verifier:
         """All obligations of contract c: returns (results, stats)."""
         results = []
         stats = {'paths': 0, 'queries': 0, 'instances': 0, 'cases_hit': set(), 'out_of_subset': []}
-        if c.trusted:
+        if c.trusted or c.bounded_only:
             return results, stats
         for label, combo in self.instances(c):
             if only and label not in only:
@@ -663,9 +670,39 @@ class Verifier:
                                           concretise=conc))
                 if c.pure:
                     bad = [w for w in st.writes if len(w) > 1 and w[1] in ('param', 'module')]
-                    if bad:
-                        results.append(check_goal(st, name + '#modifies-nothing', False, kind='frame', concretise=conc))
+                    gw = [w for w in st.global_writes if w[1] not in (c.modifies or ())]
+                    results.append(check_goal(st, name + '#modifies-nothing', not bad and not gw, kind='frame', concretise=conc))
+                if k.fresh_result:
+                    results.append(check_goal(st, name + '#result-is-freshly-allocated', is_fresh(st, outcome[1]),
+                                              kind='frame', concretise=conc))
             explore(st, one)
+
+
+def mark_fresh(st, v):
+    if isinstance(v, tuple):
+        for x in v:
+            mark_fresh(st, x)
+    elif isinstance(v, (list, dict)):
+        st.allocated(v)
+        for x in (v.values() if isinstance(v, dict) else v):
+            mark_fresh(st, x)
+    elif isinstance(v, SObj):
+        v.provenance = 'fresh'
+        for x in v.attrs.values():
+            mark_fresh(st, x)
+
+
+def is_fresh(st, v):
+    """No mutable part of v existed before this call."""
+    if isinstance(v, (tuple,)):
+        return all(is_fresh(st, x) for x in v)
+    if isinstance(v, (list, dict)):
+        return id(v) in st.fresh_ids and all(is_fresh(st, x) for x in (v.values() if isinstance(v, dict) else v))
+    if isinstance(v, SObj):
+        return v.provenance == 'fresh' and all(is_fresh(st, x) for x in v.attrs.values())
+    if isinstance(v, SOpaque) and v.kind in ('dict', 'list'):
+        return not v.info.get('param')
+    return True
 
 
 # give State an immediate-obligation facility
